@@ -9,6 +9,7 @@ All statements are for an arbitrary linearly ordered field `F` and an arbitrary 
 -/
 import ZepidVerif.Gen.Calc
 import ZepidVerif.Model.Measures
+import ZepidVerif.Gen.Frames
 import Mathlib.Algebra.Order.Field.Basic
 import Mathlib.Tactic.FieldSimp
 import Mathlib.Tactic.Ring
@@ -339,6 +340,102 @@ theorem rates_eq_counts (cf : F → F → F → F → Except Err (Results F)) (r
       intro p hp
       rw [← crosstab_filter, ← crosstab_filter, ← personTime_complete, ← personTime_complete]
       exact h2 p hp
+
+
+/-! ### Tie of the data-frame classes to the source: the cross-tabulation statements of the six `fit`
+methods of zepid/base.py, as translated into `Gen/Frames.lean` on every run, are the model's `cntED` /
+`personTime` / missing-data counters, wired into the count functions argument by argument. -/
+
+theorem riskratio_level_generated (ppf : F → F) (infv : F) (rows : List (MRow F)) (ref i : Nat) (α : F) :
+    RiskRatio_risk_ratio_level ppf infv rows ref i α =
+      risk_ratio ppf infv ((cntED rows i true : Nat) : F) ((cntED rows i false : Nat) : F)
+        ((cntED rows ref true : Nat) : F) ((cntED rows ref false : Nat) : F) α := rfl
+
+theorem riskdifference_level_generated (ppf : F → F) (infv : F) (rows : List (MRow F)) (ref i : Nat) (α : F) :
+    RiskDifference_risk_difference_level ppf infv rows ref i α =
+      risk_difference ppf infv ((cntED rows i true : Nat) : F) ((cntED rows i false : Nat) : F)
+        ((cntED rows ref true : Nat) : F) ((cntED rows ref false : Nat) : F) α := rfl
+
+theorem nnt_level_generated (ppf : F → F) (infv : F) (rows : List (MRow F)) (ref i : Nat) (α : F) :
+    NNT_number_needed_to_treat_level ppf infv rows ref i α =
+      number_needed_to_treat ppf infv ((cntED rows i true : Nat) : F) ((cntED rows i false : Nat) : F)
+        ((cntED rows ref true : Nat) : F) ((cntED rows ref false : Nat) : F) α := rfl
+
+theorem oddsratio_level_generated (ppf : F → F) (infv : F) (rows : List (MRow F)) (ref i : Nat) (α : F) :
+    OddsRatio_odds_ratio_level ppf infv rows ref i α =
+      odds_ratio ppf infv ((cntED rows i true : Nat) : F) ((cntED rows i false : Nat) : F)
+        ((cntED rows ref true : Nat) : F) ((cntED rows ref false : Nat) : F) α := rfl
+
+theorem irr_level_generated (ppf : F → F) (infv : F) (rows : List (MRow F)) (ref i : Nat) (α : F) :
+    IncidenceRateRatio_incidence_rate_ratio_level ppf infv rows ref i α =
+      incidence_rate_ratio ppf infv ((cntED rows i true : Nat) : F) ((cntED rows ref true : Nat) : F)
+        (personTime rows i) (personTime rows ref) α := rfl
+
+theorem ird_level_generated (ppf : F → F) (infv : F) (rows : List (MRow F)) (ref i : Nat) (α : F) :
+    IncidenceRateDifference_incidence_rate_difference_level ppf infv rows ref i α =
+      incidence_rate_difference ppf infv ((cntED rows i true : Nat) : F) ((cntED rows ref true : Nat) : F)
+        (personTime rows i) (personTime rows ref) α := rfl
+
+/-- the per-level risks reported next to the measure: `risk_ci` on (events, events + non-events) of that level -/
+theorem risk_level_generated (ppf : F → F) (infv : F) (rows : List (MRow F)) (ref i : Nat) (α : F) :
+    RiskRatio_risk_ci_level ppf infv rows ref i α =
+      risk_ci ppf infv ((cntED rows i true : Nat) : F)
+        (((cntED rows i true : Nat) : F) + ((cntED rows i false : Nat) : F)) α "wald" ∧
+    RiskRatio_risk_ci_ref ppf infv rows ref i α =
+      risk_ci ppf infv ((cntED rows ref true : Nat) : F)
+        (((cntED rows ref true : Nat) : F) + ((cntED rows ref false : Nat) : F)) α "wald" ∧
+    RiskDifference_risk_ci_level ppf infv rows ref i α = RiskRatio_risk_ci_level ppf infv rows ref i α ∧
+    RiskDifference_risk_ci_ref ppf infv rows ref i α = RiskRatio_risk_ci_ref ppf infv rows ref i α :=
+  ⟨rfl, rfl, rfl, rfl⟩
+
+/-- the per-level rates of the two rate classes: `incidence_rate_ci` on (events, person-time) of that level -/
+theorem rate_level_generated (ppf : F → F) (infv : F) (rows : List (MRow F)) (ref i : Nat) (α : F) :
+    IncidenceRateRatio_incidence_rate_ci_level ppf infv rows ref i α =
+      incidence_rate_ci ppf infv ((cntED rows i true : Nat) : F) (personTime rows i) α ∧
+    IncidenceRateRatio_incidence_rate_ci_ref ppf infv rows ref i α =
+      incidence_rate_ci ppf infv ((cntED rows ref true : Nat) : F) (personTime rows ref) α ∧
+    IncidenceRateDifference_incidence_rate_ci_level ppf infv rows ref i α =
+      IncidenceRateRatio_incidence_rate_ci_level ppf infv rows ref i α ∧
+    IncidenceRateDifference_incidence_rate_ci_ref ppf infv rows ref i α =
+      IncidenceRateRatio_incidence_rate_ci_ref ppf infv rows ref i α :=
+  ⟨rfl, rfl, rfl, rfl⟩
+
+/-- the missing-data counters the six classes report are the model's -/
+theorem missing_generated (rows : List (MRow F)) (ref i : Nat) :
+    RiskRatio_missing rows ref i = [missingED rows, missingE rows, missingD rows] ∧
+    RiskDifference_missing rows ref i = [missingED rows, missingE rows, missingD rows] ∧
+    NNT_missing rows ref i = [missingED rows, missingE rows, missingD rows] ∧
+    OddsRatio_missing rows ref i = [missingED rows, missingE rows, missingD rows] ∧
+    IncidenceRateRatio_missing rows ref i = [missingED rows, missingE rows, missingD rows, missingT rows] ∧
+    IncidenceRateDifference_missing rows ref i = [missingED rows, missingE rows, missingD rows, missingT rows] :=
+  ⟨rfl, rfl, rfl, rfl, rfl, rfl⟩
+
+/-- the counts entering the Fréchet bounds of `RiskDifference.fit` are those of the model's `frechet` -/
+theorem frechet_counts_generated (rows : List (MRow F)) (ref i : Nat) :
+    RiskDifference_frechet_counts rows ref i =
+      (cntED rows i true, cntED rows i false,
+       (rows.filter fun r => r.e.isSome && r.e != some i && r.d == some true).length,
+       (complete rows).length) := by
+  unfold RiskDifference_frechet_counts cntED complete
+  simp only [Prod.mk.injEq, true_and]
+  refine ⟨?_, trivial⟩
+  congr 1
+  apply List.filter_congr
+  intro r _
+  cases r.e <;> simp [Bool.and_comm]
+
+/-- `fit` of the four count classes, with the loop body taken from the generated code: every reported level's
+    result is the count function on the cross-tabulation of the rows with exposure and outcome observed -/
+theorem frame_generated_eq_counts (ppf : F → F) (infv : F) (rows : List (MRow F)) (ref : Nat) (α : F)
+    (out : List (Nat × Results F))
+    (h : (match otherLevels rows ref with
+          | .error e => (Except.error e : Except Err (List (Nat × Results F)))
+          | .ok lv => mapLevels (fun i => RiskRatio_risk_ratio_level ppf infv rows ref i α) lv) = .ok out) :
+    out.map (·.1) = (levelSet rows).filter (· ≠ ref) ∧
+    ∀ p ∈ out,
+      risk_ratio ppf infv ((cntED (complete rows) p.1 true : Nat) : F) ((cntED (complete rows) p.1 false : Nat) : F)
+         ((cntED (complete rows) ref true : Nat) : F) ((cntED (complete rows) ref false : Nat) : F) α = .ok p.2 :=
+  frame_eq_counts (fun a b c d => risk_ratio ppf infv a b c d α) rows ref out h
 
 /-! ### Non-vacuity: the hypotheses are met by concrete tables -/
 /-- a throw-away `Transc ℚ` used only to instantiate the examples below -/
